@@ -67,7 +67,9 @@ def gen_path(rng, thorough):
             pos = [Fraction(v) for v in t]
         elif k == 11:
             t = (float(pos[0]) + rng.randint(2, 9), float(pos[1]) + rng.randint(-9, 9), float(pos[2]) + rng.randint(1, 4))
-            els.append(("thread", t, float(rng.choice([1, 2]))))
+            # pitches that never divide the (integer) height: turns = int(|dz| / pitch) truncates, and on an exact
+            # multiple one ulp of accumulated position error flips the turn count (a knife-edge of binary64, not of the mode)
+            els.append(("thread", t, float(rng.choice([0.7, 1.3, 2.3]))))
             pos = [Fraction(v) for v in t]
         elif k == 12:
             t = (float(pos[0]) + rng.randint(-9, 9) or 1.0, float(pos[1]) + rng.randint(-9, 9), float(pos[2]) + rng.randint(0, 2))
